@@ -35,6 +35,7 @@ GENERATORS = {
     "CteShape_gen": "translator.gen_cte",
     "SqlValue_gen": "translator.gen_sqlvalue",
     "Inherit_gen": "translator.gen_inherit",
+    "RefRewrite_gen": "translator.gen_refrewrite",
 }
 
 
